@@ -120,6 +120,18 @@ class EarleyParser:
             new_item = Item(rule, 0, col.i)
             col.add(new_item)
 
+        # When the non-terminal derives the empty string, it might be
+        # completed in this column already. In that case the completion
+        # did not see this item, so shift over the non-terminal now:
+        for other in col:
+            if (
+                other.is_reduce
+                and other.origin == col.i
+                and other.rule.name == nx
+            ):
+                col.add(item.shifted())
+                break
+
     def scan(self, item, col):
         """Check if the item can be shifted into the next column"""
         if item.nxt == col.token.typ:
